@@ -123,22 +123,24 @@ theorem catchNthLoop_spec (sk : Skills S) (recs : List CatchRec) (k : Nat) (g : 
       rw [e]
       exact ⟨g, rfl, ⟨hidx, hcnt, hsk, hle⟩⟩
 
+/-- `nth k` (as fixed): value `i + k + 1` when more than `k` values remain, otherwise `None` and the
+exhausted state. -/
 theorem catchNth_spec (sk : Skills S) (recs : List CatchRec) (g : CatchGrad S) (i k : Nat)
     (hc : CatchCanon sk recs g i) :
-    (i < recs.length →
-      let j := i + min k (recs.length - i - 1) + 1
-      (catchNth sk recs (recs.length - 1) g k).1 = .some (catchValue sk recs j) ∧
-        CatchCanon sk recs (catchNth sk recs (recs.length - 1) g k).2 j) ∧
-    (i = recs.length → (catchNth sk recs (recs.length - 1) g k).1 = .none ∧
-        CatchCanon sk recs (catchNth sk recs (recs.length - 1) g k).2 i) := by
+    (i + k < recs.length →
+      (catchNth sk recs (recs.length - 1) g k).1 = .some (catchValue sk recs (i + k + 1)) ∧
+        CatchCanon sk recs (catchNth sk recs (recs.length - 1) g k).2 (i + k + 1)) ∧
+    (recs.length ≤ i + k → (catchNth sk recs (recs.length - 1) g k).1 = .none ∧
+        CatchCanon sk recs (catchNth sk recs (recs.length - 1) g k).2 recs.length) := by
+  have hle := hc.le
   have hlen := catchLen_spec sk recs g i hc
   have hidx := hc.idx
   -- state before the final `next`
-  have hpre : ∃ g2, CatchCanon sk recs g2 (i + min k (recs.length - i - 1)) ∧
+  have hpre : ∃ g2, CatchCanon sk recs g2 (i + min k (recs.length - i)) ∧
       catchNth sk recs (recs.length - 1) g k = catchNext sk recs (recs.length - 1) g2 := by
     unfold catchNth
     simp only [hlen]
-    by_cases h0 : g.idx = 0 ∧ min k (recs.length - i - 1) > 0
+    by_cases h0 : g.idx = 0 ∧ min k (recs.length - i) > 0
     · have hi0 : i = 0 := by omega
       subst hi0
       have hn : 0 < recs.length := by omega
@@ -147,8 +149,8 @@ theorem catchNth_spec (sk : Skills S) (recs : List CatchRec) (g : CatchGrad S) (
       have hc1 : CatchCanon sk recs { g with idx := g.idx + 1, counts := g.counts.add r } 1 :=
         ⟨by simp [hidx], by
           simp only [hc.counts]; rw [catchPrefixCounts_succ recs 0 r hr], by simpa using hc.skills, hn⟩
-      obtain ⟨g', hg', hc'⟩ := catchNthLoop_spec sk recs (min k (recs.length - 0 - 1) - 1) _ 1 hc1 (Nat.le_refl _)
-      have e : 1 + min (min k (recs.length - 0 - 1) - 1) (recs.length - 1) = 0 + min k (recs.length - 0 - 1) := by omega
+      obtain ⟨g', hg', hc'⟩ := catchNthLoop_spec sk recs (min k (recs.length - 0) - 1) _ 1 hc1 (Nat.le_refl _)
+      have e : 1 + min (min k (recs.length - 0) - 1) (recs.length - 1) = 0 + min k (recs.length - 0) := by omega
       rw [e] at hc'
       refine ⟨g', hc', ?_⟩
       have hg0 : g.idx = 0 := h0.1
@@ -158,16 +160,16 @@ theorem catchNth_spec (sk : Skills S) (recs : List CatchRec) (g : CatchGrad S) (
       simp only [Nat.sub_zero] at hg' ⊢
       rw [hg']
     · by_cases hi : 1 ≤ i
-      · obtain ⟨g', hg', hc'⟩ := catchNthLoop_spec sk recs (min k (recs.length - i - 1)) g i hc hi
-        have e : i + min (min k (recs.length - i - 1)) (recs.length - i) = i + min k (recs.length - i - 1) := by omega
+      · obtain ⟨g', hg', hc'⟩ := catchNthLoop_spec sk recs (min k (recs.length - i)) g i hc hi
+        have e : i + min (min k (recs.length - i)) (recs.length - i) = i + min k (recs.length - i) := by omega
         rw [e] at hc'
         refine ⟨g', hc', ?_⟩
         rw [if_neg h0]
         simp only [hidx, hg']
       · have hi0 : i = 0 := by omega
         subst hi0
-        have ht : min k (recs.length - 0 - 1) = 0 := by
-          have : ¬ (min k (recs.length - 0 - 1) > 0) := fun h => h0 ⟨hidx, h⟩
+        have ht : min k (recs.length - 0) = 0 := by
+          have : ¬ (min k (recs.length - 0) > 0) := fun h => h0 ⟨hidx, h⟩
           omega
         refine ⟨g, by rw [ht]; exact hc, ?_⟩
         rw [if_neg h0]
@@ -175,17 +177,16 @@ theorem catchNth_spec (sk : Skills S) (recs : List CatchRec) (g : CatchGrad S) (
   obtain ⟨g2, hc2, heq2⟩ := hpre
   rw [heq2]
   constructor
-  · intro hlt j
-    have hm : i + min k (recs.length - i - 1) < recs.length := by omega
-    exact (catchNext_spec sk recs g2 _ hc2).1 hm
-  · intro heq
-    have hm : i + min k (recs.length - i - 1) = recs.length := by omega
-    have hn := (catchNext_spec sk recs g2 _ hc2).2 hm
-    rw [hn]
-    refine ⟨rfl, ?_⟩
-    have e : i + min k (recs.length - i - 1) = i := by omega
+  · intro hlt
+    have e : i + min k (recs.length - i) = i + k := by omega
     rw [e] at hc2
-    exact hc2
+    exact (catchNext_spec sk recs g2 _ hc2).1 hlt
+  · intro hge
+    have e : i + min k (recs.length - i) = recs.length := by omega
+    rw [e] at hc2
+    have hn := (catchNext_spec sk recs g2 _ hc2).2 rfl
+    rw [hn]
+    exact ⟨rfl, hc2⟩
 
 end Rosu.Gradual
 
